@@ -1,16 +1,16 @@
 (* C03 — model of the integer store paths of cffi.
 
-   Hand-transcribed (tied by the correspondence run of tools/props/c03.py):
-     _my_PyLong_AsLongLong / _my_PyLong_AsUnsignedLongLong      src/c/_cffi_backend.c:833, 869
-     read_raw_signed_data / read_raw_unsigned_data / write_raw_integer_data      :927, 939, 970
-     convert_from_object, CT_PRIMITIVE_SIGNED / CT_PRIMITIVE_UNSIGNED branches   :1714-1739
-     convert_to_object integer branches (what a read returns)                    :1085
+   The memory path lives in C03/Mem.v + C03/Store.v (no dependency on regenerated files; shared
+   with C02 and C04) and is re-exported here:
+     read_raw_*_data / write_raw_integer_data, _my_PyLong_As*, convert_from_object integer
+     branches (:1714-1739), convert_to_object integer reads.
+   This file adds, hand-transcribed (tied by the correspondence run of tools/props/c03.py):
      _cffi_to_c__Bool                                                            :7750
      convert_from_object_fficallback + the error path of general_invoke_callback :6076, 6235
      Recompiler._convert_funcarg_to_c (error test after the converter)   src/cffi/recompiler.py:527
-   Regenerated from the source text on every run (C03/Gen.v): the range tests of
-   _cffi_to_c_SIGNED_FN/_UNSIGNED_FN (:7689, :7699) as C expressions, their instantiations, the
-   _cffi_to_c_int dispatch of _cffi_include.h and the export table.
+   and, built on the parts regenerated from the source text on every run (C03/Gen.v): the range
+   tests of _cffi_to_c_SIGNED_FN/_UNSIGNED_FN (:7689, :7699) as C expressions evaluated by
+   C03/CExpr.v, their instantiations, the _cffi_to_c_int dispatch of _cffi_include.h.
 
    Python ints are Z.  Memory is a little-endian list of bytes (x86-64).  A result is Ok, a Python
    exception class, or UB (C undefined behaviour / Py_FatalError) — never totalised away. *)
